@@ -132,6 +132,21 @@ theorem unique_partial_witness :
     (¬ UniqueOk uniqueWitness2 ∧ (offerAll .unique uniqueWitness2 []).2 = [.dup]) := by
   decide
 
+/-- zero and the empty string are values like any other (the tuples are `Option`-valued: an absent
+    field is `none`, never confused with a present falsy value): two nodes `(0, ⊥)` / `("", ⊥)` are
+    outside the qualified node set of a two-field unique, two nodes `(0, "")` are duplicates, and a
+    reference `(0, "")` is found.  Replayed on the real code by the harness (family `falsy_cases`). -/
+def z0 : FRes Val := .val (.num 0 0)
+def e0 : FRes Val := .val (.str "")
+theorem unique_falsy_witness :
+    (UniqueOk [[z0, .absent], [z0, .absent]] ∧ (offerAll .unique [[z0, .absent], [z0, .absent]] []).2 = []) ∧
+    (UniqueOk [[e0, .absent], [e0, .absent]] ∧ (offerAll .unique [[e0, .absent], [e0, .absent]] []).2 = []) ∧
+    (¬ UniqueOk [[z0, e0], [z0, e0]] ∧ (offerAll .unique [[z0, e0], [z0, e0]] []).2 = [.dup]) ∧
+    (¬ KeyOk [[z0, .absent]] ∧ (offerAll .key [[z0, .absent]] []).2 = [.missing 1]) ∧
+    KeyrefOk [[z0, e0], [z0, .absent]] (Q [[z0, e0]]) ∧
+    parseInteger "-0".toList = parseDecimal "0.0".toList ∧ parseInteger "+00".toList = some (.num 0 0) := by
+  decide
+
 /-! ### keyref -/
 
 theorem keyref_gen (rows : List (List (FRes Val))) (table : List Tuple) :
